@@ -1,6 +1,7 @@
 """Helpers to drive py7zr's public API from JSON case descriptors (shared by several checks)."""
 import io
 import os
+import sys
 
 import py7zr
 from py7zr.io import BytesIOFactory
@@ -232,6 +233,57 @@ def kf49(filters, datas) -> bool:
         return False
 
 
+_KF72_PROBE = r"""
+import sys, pyppmd
+order, mem = int(sys.argv[1]), int(sys.argv[2])
+data = sys.stdin.buffer.read()
+enc = pyppmd.Ppmd7Encoder(order, mem)
+out = enc.encode(data) + enc.flush()
+dec = pyppmd.Ppmd7Decoder(order, mem)
+res = bytearray()
+pos = 0
+while len(res) < len(data):
+    if dec.needs_input:
+        piece = out[pos:pos + (1 << 20)] or b"\0"
+        pos += len(piece)
+    else:
+        piece = b""
+    res += dec.decode(piece, len(data) - len(res))
+sys.stdout.write("ok" if bytes(res) == data else "bad")
+"""
+
+
+def kf72(filters, datas) -> bool:
+    """KF-72 (open, dependency): for some model sizes (seen: exactly 1 MiB, order >= 3) pyppmd cannot round-trip incompressible
+    input that exhausts the model: decoding its own output gives wrong bytes, MemoryError or a segmentation fault.  True iff the
+    chain contains PPMd and the library alone, in a process of its own, fails to round-trip (one-shot encode, then decode)
+    exactly what this folder feeds it with the chain's order and memory size."""
+    if not filters:
+        return False
+    ids = [f["id"] for f in filters]
+    if G.F_PPMD not in ids:
+        return False
+    import subprocess
+    import struct as _struct
+    from ref7z import coders as RC
+
+    try:
+        from py7zr.compressor import PpmdCompressor
+
+        at = ids.index(G.F_PPMD)
+        order, mem = _struct.unpack("<BLBB", PpmdCompressor.encode_filter_properties(filters[at]))[:2]
+        data = b"".join(bytes(d) for d in datas)
+        for f in filters[:at]:
+            m = _PY2RC.get(f["id"])
+            if m is None:
+                return False
+            data = RC.encode_stage({"m": m}, data)
+        r = subprocess.run([sys.executable, "-c", _KF72_PROBE, str(order), str(mem)], input=data, capture_output=True, timeout=300)
+    except Exception:
+        return False
+    return r.returncode != 0 or r.stdout != b"ok"
+
+
 def drain_compressors(z):
     """after a write call failed: flush the codec objects of the open folder so that none is freed with pending data"""
     try:
@@ -283,4 +335,11 @@ def tag_kf47(out, pairs):
     if hit49:
         for v in out.violations:
             v["signature"]["kf49"] = True
+    try:
+        hit72 = any(kf72(f, d) for f, d in pairs)
+    except Exception:
+        hit72 = False
+    if hit72:
+        for v in out.violations:
+            v["signature"]["kf72"] = True
     return out
